@@ -16,31 +16,35 @@ def _walk(name, quick, thorough, budget, tiers=("quick", "thorough"), backoff=Tr
 PROP = dict(
     level="model_checking",
     technique="TLA+ spec Peers.tla (RedisPubsubPeers + MapWithTTL + pubsub channel with arbitrary delivery order and bounded delay) model-checked by TLC, "
-              "timed convergence invariant in both tiers and <>[] convergence under fairness in the thorough tier; every generated transition replayed into 2-3 real "
+              "timed convergence invariants (cluster-wide and per peer) in both tiers and <>[] convergence under fairness in the thorough tier; every generated transition replayed into 2-3 real "
               "RedisPubsubPeers instances (real Ready goroutines) that share a clockwork fake clock and a harness pubsub which delivers each queued message on the model's command "
-              "(spec->code transition tour); PeersCodec.tla enumerates address/id strings for the message codec (function-vector replay)",
+              "(spec->code transition tour; histories may start from a running three-node cluster that the harness boots through the same code paths); PeersCodec.tla enumerates address/id strings for the message codec (function-vector replay)",
     design_ref="DESIGN.md §5 C18, §9",
     level_text="TLC explores every order of node start, refresh-ticker firing (gap 3 or 4 ticks of 1 s, covering the code's 3 s + up to 20 % jitter), message delivery in any order with a delay of "
                "0..D ticks, graceful stop (unregister message, which may overtake or be overtaken by a register), silent crash, restart of a process under a new instance id on the same address, transient Publish failures (the call returns an error and nobody receives the message; up to 3 for one node incl. its own looped-back heartbeat, 1-2 for two nodes), "
-               "and TTL expiry, for 2 nodes (quick) and 2-3 nodes / 3 ids (thorough) with at most 3-6 membership events, and checks on the model: if no start/stop/crash/failed publish happened for "
+               "and TTL expiry, for 2 nodes (quick) and 2-3 nodes / 3 ids (thorough) with at most 3-6 membership events, plus MIXED histories from a running three-node cluster (a silent crash and a clean unregister of different peers in either order "
+               "and at any distance inside one timeout window - quick; any two of three nodes leaving either way, and a rolling restart [crash of c, unregister of b, b's successor joining on b's address and unregistering again] - thorough), and checks on the model: if no start/stop/crash/failed publish happened for "
                "PeerEntryTimeout + one refresh interval + the delivery delay then every running node lists exactly the alive publishing nodes (plus the tighter halves: live nodes are learnt within "
-               "refresh + delay, dead ones forgotten within timeout + delay; a running node always lists itself; no duplicate address afterwards), an entry reappears only through a register message, "
+               "refresh + delay, dead ones forgotten within timeout + delay; a running node always lists itself; no duplicate address afterwards; and the same PER PEER, however much the rest of the cluster keeps changing: a peer that left, with or without unregister, is listed by nobody from timeout + delay after it left, "
+               "a publishing peer is listed by every node that has been up for refresh + delay), an entry reappears only through a register message, "
                "and - thorough, under weak fairness of clock, tickers and deliveries - membership eventually agrees forever and a list that changed by expiry is eventually notified. "
                "Each generated transition of the replayed graphs is executed on real RedisPubsubPeers instances and GetPeers() of every running node, the set of messages the nodes published "
                "(who, register/unregister, to whom), the change-callback firings and the set of nodes whose currently requested refresh period (NewTicker and every later Reset) lies outside the model's 3..4 s envelope must equal the model's (empty for the code's fixed period; an implementation that backs off while publishes fail is accepted by the backoff alternatives only if the first successful publish brings the period back). The codec clause: for all address/id strings over a small alphabet (incl. the separator and "
                "action letters) unmarshal(marshal(x)) must return x unchanged whenever address and id are non-empty and comma-free, and unmarshal must not panic on any string.",
-    level_note="Exhaustive only within the bounds (replayed: 2 nodes D=1 with jitter, 3 ids/2 addresses D=0, 3 nodes D=0; model-checked only: 2 nodes D=2 jitter, restart D=1 jitter, 3 nodes D=0 with 4 events; <=3-6 membership events; time in 1 s ticks, "
+    level_note="Exhaustive only within the bounds (replayed: 2 nodes D=1 with jitter, 3 ids/2 addresses D=0, 3 nodes D=0, booted 3-node cluster D=0 with 2 leave events, booted 3-node cluster + successor id with 4 events; model-checked only: booted 3-node cluster with 3 events,  2 nodes D=2 jitter, restart D=1 jitter, 3 nodes D=0 with 4 events; <=3-6 membership events; time in 1 s ticks, "
                "so the refresh interval is the envelope 3..4 s and the bound checked is 10 s + 4 s + D). Assumptions made explicit in the model: no loss of a successfully published message, a bounded number of failed Publish calls (the settle time counts from the last one; for an implementation with backoff, from its first successful publish after them), delivery delay <= D with "
                "refresh + D <= timeout, nothing is delivered to a stopped/crashed process, a restarted process has a new instance id. The refresh ticker's channel is interposed: the goroutine "
                "gets its tick when the model says so and the harness checks that the period the code requested from the clock lies in the model's envelope (if the code's constants leave the envelope "
                "but still refresh in time the check reports cannot-decide, if entries would expire between refreshes it reports a violation). RedisPubsubPeers builds its TTL map on the wall clock "
                "(NewMapWithTTL ignores the injected clock), so the harness re-seats that map on the fake clock right after Start. The boundary at the expiry instant and the exact callback discipline "
-               "are not part of C18: the walk first demands the code model's behaviour (closed boundary, callback iff the listed id set differs from the last hashed one) and falls back to the "
+               "are not part of C18 (but WHEN an entry leaves the list is: GetPeers() of every running node is compared after every 1 s tick, so an entry that outlives its own deadline because of what happened to a different key - e.g. an expiry scan postponed by an unrelated Delete - diverges at the first tick after the deadline). "
+               "In the mixed (booted) scenarios roles are fixed to keep the graphs replayable (a1 observes and never leaves in the quick one; c1 only crashes and b1/b2 only unregister in the rolling restart) and a node publishes only when no message is in flight (deliveries of one heartbeat and of a concurrent unregister still in any order); "
+               "the walk first demands the code model's behaviour (closed boundary, callback iff the listed id set differs from the last hashed one) and falls back to the "
                "alternatives; VIOLATION only if none fits. Concurrent listen() calls (go-redis runs each callback in its own goroutine; unsynchronised hash/callbacks, C35) and go-redis itself are "
                "not exercised. Codec: an address containing a comma is cut at the first comma by unmarshal (TLC invariant CommaAddressCorrupts documents it) but no address the system can produce "
                "(http://host-or-IP:port) or id (8 hex digits) contains one, so those inputs are left open rather than reported.",
     assumptions=["clockwork.FakeClock is faithful", "pubsub: a successful Publish is delivered without loss, in any order, delay <= D ticks with refresh + D <= PeerEntryTimeout; a bounded number of Publish calls fail (error returned, nothing delivered)",
-                 "refresh ticker fires 3..4 s after the previous firing", "bounded: 2-3 nodes, <=6 membership events, D<=2",
+                 "refresh ticker fires 3..4 s after the previous firing", "bounded: 2-3 nodes (4 ids in the rolling restart), <=6 membership events, D<=2; the booted cluster of the mixed scenarios starts with all nodes registered at the same instant",
                  "addresses are http://host:port and ids 8 hex digits (no comma)"],
     stages=[
         _walk("pair", "pair_q", "pair_t", {"quick": 25, "thorough": 100}),
